@@ -116,7 +116,7 @@ theorem alm_jiaZiIndex_bounds (s : String) : -1 ≤ jiaZiIndexOfStr s ∧ jiaZiI
 theorem alm_baZiYear_inv (A : Astro) (yg mg dg tg : String) (sect base m : Int) (hours : List Int) (y : Int) (res : List Solar)
     (h : baZiYear A yg mg dg tg sect base m hours y = some res) :
     res = [] ∨ ∃ (solarTime st : Solar) (d : Int), base ≤ solarTime.year ∧ 0 ≤ d ∧ d ≤ 60 ∧
-      (∃ l0, Lunar.fromYmdHms A y 1 1 0 0 0 = some l0 ∧ solarTime = termByName l0.terms (calendar.JIE_QI_IN_USE.getD (4 + m).toNat "")) ∧
+      (∃ l0, Lunar.fromSolar A ⟨y, 1, 1, 0, 0, 0⟩ = some l0 ∧ solarTime = termByName l0.terms (calendar.JIE_QI_IN_USE.getD (4 + m).toNat "")) ∧
       ((d = 0 ∧ st = solarTime) ∨ (0 < d ∧ solarTime.nextDay d = some st)) ∧
       List.foldl (alm_bzStep A yg mg dg tg sect st d) (some []) hours = some res := by
   unfold baZiYear at h
@@ -287,9 +287,9 @@ theorem alm_nextDay_year_mono (t st : Solar) (d : Int) (hv : t.valid = true) (hd
     omega
 
 /-- the same with the step hypothesis discharged: it is enough that the Jie stamps of the tables the loop consults
-(entries 4, 6, …, 26 of the table of `NewLunarFromYmd(y, 1, 1)`) are valid date-times — a table fact about the oracle -/
+(entries 4, 6, …, 26 of the table of `NewSolarFromYmd(y, 1, 1).GetLunar()`, the civil year's table) are valid date-times — a table fact about the oracle -/
 theorem baZi_base_of_valid_terms (A : Astro) (yg mg dg tg : String) (sect base endYear : Int) (res : List Solar)
-    (hterm : ∀ (y : Int) (l0 : Lunar) (i : Nat), i ≤ 26 → Lunar.fromYmdHms A y 1 1 0 0 0 = some l0 →
+    (hterm : ∀ (y : Int) (l0 : Lunar) (i : Nat), i ≤ 26 → Lunar.fromSolar A ⟨y, 1, 1, 0, 0, 0⟩ = some l0 →
       (termByName l0.terms (calendar.JIE_QI_IN_USE.getD i "")).valid = true)
     (h : listSolarFromBaZi A yg mg dg tg sect base endYear = some res) : ∀ s ∈ res, base ≤ s.year := by
   intro s hs
